@@ -52,6 +52,26 @@ type Event struct {
 	H      int    `json:"h"`
 	Sz     int64  `json:"sz"`
 	Exp    []Node `json:"exp"`
+	// probes and change sets
+	S     int    `json:"s"`
+	E     int    `json:"e"`
+	Asc   bool   `json:"asc"`
+	Items []KV   `json:"items"`
+	Idx   int64  `json:"idx"`
+	BK    int    `json:"bk"`
+	BV    int    `json:"bv"`
+	CS    []Pair `json:"cs"`
+}
+
+// KV is one iterated pair; Pair one change-set entry.
+type KV struct {
+	K int `json:"k"`
+	V int `json:"v"`
+}
+type Pair struct {
+	K   int  `json:"k"`
+	V   int  `json:"v"`
+	Del bool `json:"del"`
 }
 
 // Opts describes one trace.
@@ -173,6 +193,18 @@ func Generate(o Opts) (lines []string, err error) {
 			err = fmt.Errorf("panic: %v\n%s", p, debug.Stack())
 		}
 		for _, e := range d.out {
+			if e.Items == nil {
+				e.Items = []KV{}
+			}
+			if e.CS == nil {
+				e.CS = []Pair{}
+			}
+			if e.Reads == nil {
+				e.Reads = []int{}
+			}
+			if e.Exp == nil {
+				e.Exp = []Node{}
+			}
 			b, _ := json.Marshal(e)
 			lines = append(lines, string(b))
 		}
@@ -196,22 +228,22 @@ func Generate(o Opts) (lines []string, err error) {
 		e := Event{}
 		lat := latest()
 		switch x := rng.Intn(100); {
-		case x < 38:
+		case x < 34:
 			e.Op, e.K, e.V = "set", 1+rng.Intn(o.K), rng.Intn(nvals)
 			upd, err := d.tree.Set(d.pal.Key(e.K), d.pal.Value(e.V))
 			e.Upd, e.Err = upd, err != nil
-		case x < 39:
+		case x < 35:
 			e.Op, e.K = "setnil", 1+rng.Intn(o.K)
 			_, err := d.tree.Set(d.pal.Key(e.K), nil)
 			e.Err = err != nil
-		case x < 52:
+		case x < 47:
 			e.Op, e.K = "rm", 1+rng.Intn(o.K)
 			v, rem, err := d.tree.Remove(d.pal.Key(e.K))
 			e.Rem, e.Err, e.Val = rem, err != nil, -1
 			if rem {
 				e.Val = d.valueOf(v)
 			}
-		case x < 68:
+		case x < 61:
 			e.Op = "save"
 			_, v, err := d.tree.SaveVersion()
 			e.Err = err != nil
@@ -225,24 +257,24 @@ func Generate(o Opts) (lines []string, err error) {
 					return nil, fmt.Errorf("export of version %d: %w", v, err)
 				}
 			}
-		case x < 71:
+		case x < 64:
 			e.Op = "rollback"
 			d.tree.Rollback()
-		case x < 75:
+		case x < 68:
 			e.Op, e.Fast = "reopen", rng.Intn(2) == 0
 			v, err := d.open(e.Fast)
 			e.Err, e.RVer = err != nil, v
-		case x < 79:
+		case x < 72:
 			e.Op, e.T = "load", int64(rng.Intn(int(lat)+2))
 			v, err := d.tree.LoadVersion(e.T)
 			e.Err = err != nil
 			if err == nil {
 				e.RVer = v
 			}
-		case x < 82:
+		case x < 75:
 			e.Op, e.T = "lvfo", 1+int64(rng.Intn(int(lat)+1))
 			e.Err = d.tree.LoadVersionForOverwriting(e.T) != nil
-		case x < 88:
+		case x < 81:
 			// contract (doc.go): the version the handle has loaded is not deleted under it
 			n := int64(rng.Intn(int(lat) + 2))
 			if !(n < d.tree.Version() || n >= lat) {
@@ -250,6 +282,114 @@ func Generate(o Opts) (lines []string, err error) {
 			}
 			e.Op, e.N = "delto", n
 			e.Err = d.tree.DeleteVersionsTo(n) != nil
+		case x < 84:
+			// SaveChangeSet: one or two pairs
+			e.Op = "savecs"
+			cs := &iavl.ChangeSet{}
+			for n := 1 + rng.Intn(2); n > 0; n-- {
+				p := Pair{K: 1 + rng.Intn(o.K), V: rng.Intn(nvals), Del: rng.Intn(4) == 0}
+				if p.Del {
+					p.V = 0
+				}
+				e.CS = append(e.CS, p)
+				kp := &iavl.KVPair{Key: d.pal.Key(p.K), Delete: p.Del}
+				if !p.Del {
+					kp.Value = d.pal.Value(p.V)
+				}
+				cs.Pairs = append(cs.Pairs, kp)
+			}
+			v, err := d.tree.SaveChangeSet(cs)
+			e.Err = err != nil
+			if err == nil {
+				e.RVer = v
+				it, err := d.tree.GetImmutable(v)
+				if err != nil {
+					return nil, fmt.Errorf("GetImmutable(%d) after SaveChangeSet: %w", v, err)
+				}
+				if e.Exp, err = d.export(it); err != nil {
+					return nil, fmt.Errorf("export of version %d: %w", v, err)
+				}
+			}
+		case x < 89:
+			// iteration over [s, e) of the working tree or of a retained version
+			e.Op, e.T, e.S, e.E, e.Asc = "iter", -1, rng.Intn(o.K+2)-1, rng.Intn(o.K+2)-1, rng.Intn(2) == 0
+			if e.S == 0 {
+				e.S = -1
+			}
+			if e.E == 0 {
+				e.E = -1
+			}
+			bound := func(x int) []byte {
+				if x < 0 {
+					return nil
+				}
+				return d.pal.Key(x)
+			}
+			var itr interface {
+				Valid() bool
+				Next()
+				Key() []byte
+				Value() []byte
+				Error() error
+				Close() error
+			}
+			var err error
+			if av := d.tree.AvailableVersions(); len(av) > 0 && rng.Intn(2) == 0 {
+				e.T = int64(av[rng.Intn(len(av))])
+				it, gerr := d.tree.GetImmutable(e.T)
+				if gerr != nil {
+					return nil, fmt.Errorf("GetImmutable(%d) of an available version: %w", e.T, gerr)
+				}
+				itr, err = it.Iterator(bound(e.S), bound(e.E), e.Asc)
+			} else {
+				itr, err = d.tree.Iterator(bound(e.S), bound(e.E), e.Asc)
+			}
+			if err != nil {
+				return nil, fmt.Errorf("Iterator: %w", err)
+			}
+			e.Items = []KV{}
+			for ; itr.Valid(); itr.Next() {
+				e.Items = append(e.Items, KV{K: d.pal.KeyOf(itr.Key()), V: d.valueOf(itr.Value())})
+			}
+			if err := itr.Error(); err != nil {
+				return nil, fmt.Errorf("iterator error: %w", err)
+			}
+			itr.Close()
+			d.out = append(d.out, e)
+			continue
+		case x < 92:
+			// lookup by key with rank, lookup by rank
+			e.Op, e.T, e.K = "index", -1, 1+rng.Intn(o.K)
+			var it *iavl.ImmutableTree = d.tree.ImmutableTree
+			if av := d.tree.AvailableVersions(); len(av) > 0 && rng.Intn(2) == 0 {
+				e.T = int64(av[rng.Intn(len(av))])
+				var gerr error
+				if it, gerr = d.tree.GetImmutable(e.T); gerr != nil {
+					return nil, fmt.Errorf("GetImmutable(%d) of an available version: %w", e.T, gerr)
+				}
+			}
+			idx, val, err := it.GetWithIndex(d.pal.Key(e.K))
+			if err != nil {
+				return nil, fmt.Errorf("GetWithIndex: %w", err)
+			}
+			has, err := it.Has(d.pal.Key(e.K))
+			if err != nil {
+				return nil, fmt.Errorf("Has: %w", err)
+			}
+			e.Idx, e.Val = idx, -1
+			if has {
+				e.Val = d.valueOf(val)
+			}
+			e.N = int64(rng.Intn(int(it.Size())+3)) - 1
+			bk, bv, err := it.GetByIndex(e.N)
+			if err != nil {
+				return nil, fmt.Errorf("GetByIndex: %w", err)
+			}
+			if bk != nil {
+				e.BK, e.BV = d.pal.KeyOf(bk), d.valueOf(bv)
+			}
+			d.out = append(d.out, e)
+			continue
 		default:
 			e.Op, e.T = "versioned", int64(rng.Intn(int(lat)+2))
 			e.Exists = d.tree.VersionExists(e.T)
